@@ -148,7 +148,8 @@ pub fn exec(case: &[i64]) -> Outcome {
     let hash_over = |ds: &[String]| Sha256Hasher::new().encoded_digest(&format!("{}~{}~", jwt, ds.join("~")));
     let sd_hash = match hash_variant { 0 => hash_over(&disclosures), 1 => hash_over(&[d2.clone(), d1.clone()]), 2 => hash_over(&[d1.clone()]), 3 => Sha256Hasher::new().encoded_digest(&jwt), _ => "AAAA".to_string() };
     let mut h = Map::new(); h.insert("alg".into(), json!("EdDSA"));
-    match typ { 0 => { h.insert("typ".into(), json!(identity_credential::sd_jwt_payload::KeyBindingJwtClaims::KB_JWT_HEADER_TYP)); } 1 => {} 2 => { h.insert("typ".into(), json!("JWT")); } _ => { h.insert("typ".into(), json!("kb+jwt2")); } }
+    match typ { 0 => { h.insert("typ".into(), json!(identity_credential::sd_jwt_payload::KeyBindingJwtClaims::KB_JWT_HEADER_TYP)); } 1 => {} 2 => { h.insert("typ".into(), json!("JWT")); } 3 => { h.insert("typ".into(), json!("kb+jwt2")); }
+      4 => { h.insert("typ".into(), json!(identity_credential::sd_jwt_payload::KeyBindingJwtClaims::KB_JWT_HEADER_TYP.to_uppercase())); } _ => { h.insert("typ".into(), json!(format!("{}x", identity_credential::sd_jwt_payload::KeyBindingJwtClaims::KB_JWT_HEADER_TYP))); } }
     match kt { 0 => {} 1 => { h.insert("kid".into(), json!("not a did url")); } _ => { h.insert("kid".into(), json!(ustr(ku))); } }
     let claims = match claims_variant { 0 => json!({"iat": iat, "aud": format!("aud{aud}"), "nonce": format!("n{nonce}"), "sd_hash": sd_hash}), 1 => json!({"iat": iat, "aud": format!("aud{aud}"), "nonce": format!("n{nonce}")}), 2 => json!({"iat": "now", "aud": "a", "nonce": "n", "sd_hash": sd_hash}), _ => json!([1]) };
     let kb = if kb_garbage { "garbage".to_string() } else { compact(&Value::Object(h), claims.to_string().as_bytes(), sigkey) };
@@ -203,7 +204,7 @@ pub fn gen(rng: &mut Rng, thorough: bool, sink: &mut Sink) {
   let holder = holder_doc();
   let base = Kb { present: true, sd_variant: 0, kb_garbage: false, typ: 0, kid: (2, U { d: 1, r: 0, f: 0 }), sigkey: 10, claims_variant: 0, hash_variant: 0, nonce: 1, aud: 1, iat: 1000, o_nonce: Some(1), o_aud: Some(1), method_id: None, scope: -1, earliest: Some(500), latest: Some(2000) };
   let kmuts: Vec<Vec<fn(&mut Kb)>> = vec![
-    vec![|k| k.present = false], vec![|k| k.sd_variant = 1, |k| k.sd_variant = 2, |k| k.sd_variant = 3], vec![|k| k.kb_garbage = true], vec![|k| k.typ = 1, |k| k.typ = 2, |k| k.typ = 3],
+    vec![|k| k.present = false], vec![|k| k.sd_variant = 1, |k| k.sd_variant = 2, |k| k.sd_variant = 3], vec![|k| k.kb_garbage = true], vec![|k| k.typ = 1, |k| k.typ = 2, |k| k.typ = 3, |k| k.typ = 4, |k| k.typ = 5],
     vec![|k| k.kid = (0, U { d: 0, r: 0, f: -1 }), |k| k.kid = (1, U { d: 0, r: 0, f: -1 }), |k| k.kid.1.f = 5, |k| k.kid.1 = U { d: 2, r: 0, f: 0 }, |k| { k.kid.1.f = 1; k.sigkey = 11; }, |k| k.kid.1.f = 1, |k| k.kid.1.f = 2, |k| { k.kid.1.f = 3; k.sigkey = 13; }],
     vec![|k| k.sigkey = 11, |k| k.sigkey = 20, |k| k.sigkey = 99], vec![|k| k.claims_variant = 1, |k| k.claims_variant = 2, |k| k.claims_variant = 3], vec![|k| k.hash_variant = 1, |k| k.hash_variant = 2, |k| k.hash_variant = 3, |k| k.hash_variant = 4],
     vec![|k| k.nonce = 2, |k| k.o_nonce = None, |k| { k.o_nonce = None; k.nonce = 2; }], vec![|k| k.aud = 2, |k| k.o_aud = None, |k| { k.o_aud = None; k.aud = 2; }],
